@@ -294,10 +294,10 @@ def run_shard(spec, emit):
     tier, seed, shard, nshards = spec["tier"], spec["seed"], spec["shard"], spec["nshards"]
     builder = Builder()
     if tier == "quick":
-        ids, statuses = [1, 11], [200, 403, 404, 500]
+        ids, statuses = [1, 11], [200, 403, 404, 410, 500]
         budget_s, random_cap = 35.0, 400_000
     else:
-        ids, statuses = [1, 2, 11, "1"], [200, 204, 302, 400, 403, 404, 500]
+        ids, statuses = [1, 2, 11, "1"], [200, 204, 302, 400, 403, 404, 410, 500]
         budget_s, random_cap = 150.0, 20_000_000
     alphabet = node_alphabet(ids, statuses)
     started = time.monotonic()
